@@ -369,7 +369,21 @@ func GenOdd(r *core.PRNG) string {
 	ctl := core.Pick(r, []string{"break", "continue", "break", "if true { break }", "for { break }; break", "switch { case true: continue }", "return"})
 	loop := core.Pick(r, []string{"for", "for i := 0; i < 2; i++", "for _, v := range []int{1, 2}", "for k := range map[string]int{\"a\": 1}"})
 	n := core.Pick(r, wildInts)
-	switch r.Intn(16) {
+	switch r.Intn(18) {
+	case 16:
+		return core.Pick(r, []string{"import ( x \"\\400\" )", "import ( x \"\\ud800\" )", "import \"\\400\"", "import ( \"fmt\" x )", "import ( x )", "import x", "import ( x \"fmt\" \"strings\" y )", "import ( . \"fmt\" )", "import ( _ \"fmt\" )", "import ()", "import \"\"", "import ( x \"\" ); x.y", "import ( fmt \"strings\" ); fmt.Repeat(\"a\", 2)", "import \"fmt\"; import \"fmt\"; fmt.Println(1)", "import ( a \"x/../y\" )", "import `raw`", "import ( x `ra\\400w` )", "import 'c'", "import 5"})
+	case 17:
+		// compound assignment nested inside index expressions
+		d := 2 + r.Intn(10)
+		if r.Chance(1, 40) {
+			d = 24 + r.Intn(17) // rarely deep: compile work doubles per level
+		}
+		op := core.Pick(r, []string{" += 1", " -= 1", " |= 1", "++", "--"})
+		inner := "y"
+		for i := 0; i < d; i++ {
+			inner = "x[" + inner + op + "]"
+		}
+		return "x := []int{0, 0, 0}; y := 0; " + inner + " += 1"
 	case 0:
 		return fmt.Sprintf("var hook func()%s; %s { hook = func()%s { %s }; break }; %s", ret, loop, ret, ctl, core.Pick(r, []string{"hook()", "x := hook(); x", "a, b := hook(); a; b", ""}))
 	case 1:
